@@ -141,6 +141,18 @@ func c01Scenarios(tier string) []*Scenario {
 				}
 			}
 		}
+		// two RPCs at once with the decoder as a scheduling point: whatever the library recycles between calls
+		// (buffers, pooled objects) must not be handed on while a receiver is still decoding from it
+		{
+			one := RPC{Kind: "ss", Client: []string{"S0", "C", "R*"}, Handler: []string{"r", "s0", "ret:ok"}}
+			sc := &Scenario{Prop: "C01", Name: "codec|" + rpcName(one) + " || " + rpcName(one), Transport: tr, RPCs: []RPC{one, one}, Bound: -1, Opts: "codec"}
+			if tr == "inproc" {
+				sc.Cloner = "yield"
+			}
+			out = append(out, sc)
+			sc2 := &Scenario{Prop: "C01", Name: "codec|seq0|" + rpcName(one) + " >> " + rpcName(unary), Transport: tr, RPCs: []RPC{one, unary}, Bound: -1, Opts: "codec,seq0", Cloner: sc.Cloner}
+			out = append(out, sc2)
+		}
 		// two RPCs at once on one channel
 		add(tr, unary, unary)
 		add(tr, unary, RPC{Kind: "ss", Client: []string{"S0", "C", "R*"}, Handler: []string{"r", "s0", "s1", "ret:ok"}})
